@@ -118,6 +118,7 @@ func pick(thorough bool, quick, deep int) int {
 func Cases(thorough bool) []Case {
 	b := &builder{thorough: thorough}
 	b.primitives()
+	b.packedKeys()
 	b.repeat()
 	b.extrude()
 	b.triangulation()
@@ -276,6 +277,28 @@ func (b *builder) primitives() {
 		for _, uv := range []int{0, 8} {
 			b.add("primitives.Cylinder.ToMesh", "primitives.Cylinder.ToMesh", "", []int{n, uv}, []float64{1, 0.5}, []bool{false, false})
 		}
+	}
+}
+
+// packedKeys: neighbouring calls whose two counts are equal once they are packed into one word of
+// 8, 10, 12 or 16 bits per count without masking: (r, 2^w+c) next to (r+1, c), and (2^w+r, c) next to
+// (r, c+1) — what a table of index lists keyed by rows<<w|columns (or columns<<w|rows) mixes up.
+// The partners are listed one after the other so that one process serves both, in both orders
+// (ascending and descending passes).
+func (b *builder) packedKeys() {
+	for _, w := range []int{8, 10, 12, 16} {
+		for _, gen := range []string{"primitives.UVSphere", "primitives.UVSphereUnwelded"} {
+			for _, rc := range [][2]int{{2, 3}, {3, 4}} {
+				b.add(gen, gen, "", []int{rc[0], 1<<w + rc[1]}, []float64{0.5}, nil)
+				b.add(gen, gen, "", []int{rc[0] + 1, rc[1]}, []float64{0.5}, nil)
+				b.add(gen, gen, "", []int{1<<w + rc[0], rc[1]}, []float64{0.5}, nil)
+				b.add(gen, gen, "", []int{rc[0], rc[1] + 1}, []float64{0.5}, nil)
+			}
+		}
+		b.add("primitives.Hemisphere.UV", "primitives.Hemisphere.UV", "", []int{3, 1<<w + 4}, []float64{0.5}, []bool{true})
+		b.add("primitives.Hemisphere.UV", "primitives.Hemisphere.UV", "", []int{4, 4}, []float64{0.5}, []bool{true})
+		b.add("primitives.Hemisphere.UV", "primitives.Hemisphere.UV", "", []int{1<<w + 3, 4}, []float64{0.5}, []bool{true})
+		b.add("primitives.Hemisphere.UV", "primitives.Hemisphere.UV", "", []int{3, 5}, []float64{0.5}, []bool{true})
 	}
 }
 
